@@ -82,6 +82,27 @@ func concSection(r *tx.Rng, w *tx.W, size int, opt map[string]string) {
 				return digestFrame(qf, unordered)
 			})
 		}
+		// the same case-insensitive filter from several goroutines (matchers carry a scratch buffer)
+		if sc := g.pickFrame(true); len(sc.colsOf("se")) > 0 {
+			c := sc.colsOf("se")[r.Intn(len(sc.colsOf("se")))]
+			pat := r.Pick([]string{"a%", "%b%", "%c", "ab", "%é%", "x%"})
+			fl := qframe.Filter{Column: c.name, Comparator: "ilike", Arg: pat}
+			for k := 0; k < 4; k++ {
+				target := sc
+				if k%2 == 1 {
+					// a frame sharing the column (sorted copy)
+					target = &hframe{qf: sc.qf.Sort(qframe.Order{Column: c.name, Reverse: k == 3})}
+				}
+				t := target
+				ops = append(ops, func() string {
+					qf, pm := safely(func() qframe.QFrame { return t.qf.Filter(fl) })
+					if pm != "" {
+						return "panic"
+					}
+					return digestFrame(qf, false)
+				})
+			}
+		}
 		// renderings and comparisons of shared frames
 		for k := 0; k < 3; k++ {
 			src := g.pickFrame(true)
